@@ -1,4 +1,5 @@
 import AranyaV.Proofs.CompileSim
+import AranyaV.Proofs.LangEnv
 /-!
 C22: statements of the code-at-pc simulation (per evaluator fuel) and small helper lemmas.
 -/
@@ -14,11 +15,25 @@ def supE : Expr → Bool
   | .and a b | .or a b | .coalesce a b => supE a && supE b
   | .eq a b | .ne a b | .gt a b | .lt a b | .ge a b | .le a b => supE a && supE b
   | .ite c t f => supE c && supE t && supE f
-  | .call f args => isBuiltin f && supArgs args
+  | .call _ args => supArgs args
+  | .block ss e => supSs ss && supE e
   | _ => false
 def supArgs : List Expr → Bool
   | [] => true
   | e :: es => supE e && supArgs es
+def supS : Stmt → Bool
+  | .let_ _ e => supE e
+  | .check c els => supE c && supE els
+  | .ifS brs hasElse els => supBrs brs && (!hasElse || supSs els)
+  | .ret e => supE e
+  | .dassert e => supE e
+  | .mtch _ _ => false
+def supSs : List Stmt → Bool
+  | [] => true
+  | s :: ss => supS s && supSs ss
+def supBrs : List (Expr × List Stmt) → Bool
+  | [] => true
+  | (c, ss) :: rest => supE c && supSs ss && supBrs rest
 end
 
 variable (S : Sim)
@@ -45,11 +60,96 @@ def ArgsSim (n : Nat) : Prop :=
       (fun vs l => stAt (vs.reverse ++ junk) base env fr K (wp + (compileArgs S.m.p.structs wp c es).code.length) l)
       (stAt junk base env fr K wp log)
 
-theorem sim_zero : ExprSim S 0 ∧ ArgsSim S 0 := by
-  refine ⟨?_, ?_⟩
+def StmtsSim (n : Nat) : Prop :=
+  ∀ (ss : List Stmt) (env : Env) (log : Log) (wp c : Nat) (junk base : List Val) (fr : List Env) (K : List Nat),
+    supSs ss = true →
+    CodeAt S.labels S.m.prog wp (compileStmts S.m.p.structs wp c ss).code →
+    DefsOk S.labels (compileStmts S.m.p.structs wp c ss).defs →
+    Outcome S.m (evalStmts S.m.p n env log ss) base fr K
+      (fun env' l => stAt junk base env' fr K (wp + (compileStmts S.m.p.structs wp c ss).code.length) l)
+      (stAt junk base env fr K wp log)
+
+def StmtSim (n : Nat) : Prop :=
+  ∀ (s : Stmt) (env : Env) (log : Log) (wp c : Nat) (junk base : List Val) (fr : List Env) (K : List Nat),
+    supS s = true →
+    CodeAt S.labels S.m.prog wp (compileStmt S.m.p.structs wp c s).code →
+    DefsOk S.labels (compileStmt S.m.p.structs wp c s).defs →
+    Outcome S.m (evalStmt S.m.p n env log s) base fr K
+      (fun env' l => stAt junk base env' fr K (wp + (compileStmt S.m.p.structs wp c s).code.length) l)
+      (stAt junk base env fr K wp log)
+
+/-- a nested statement block `Block; ss; End` -/
+def ScopedSim (n : Nat) : Prop :=
+  ∀ (ss : List Stmt) (env : Env) (log : Log) (wp c : Nat) (junk base : List Val) (fr : List Env) (K : List Nat),
+    supSs ss = true →
+    CodeAt S.labels S.m.prog wp (.Block :: (compileStmts S.m.p.structs (wp + 1) c ss).code ++ [.End]) →
+    DefsOk S.labels (compileStmts S.m.p.structs (wp + 1) c ss).defs →
+    Outcome S.m (evalScoped S.m.p n env log ss) base fr K
+      (fun env' l => stAt junk base env' fr K (wp + (compileStmts S.m.p.structs (wp + 1) c ss).code.length + 2) l)
+      (stAt junk base env fr K wp log)
+
+/-- the `if / else if / else` chain: `endAddr` is where the end label of the statement points -/
+def BranchesSim (n : Nat) : Prop :=
+  ∀ (brs : List (Expr × List Stmt)) (hasElse : Bool) (els : List Stmt) (env : Env) (log : Log) (wp c : Nat)
+    (endL : Label) (endAddr : Nat) (junk base : List Val) (fr : List Env) (K : List Nat),
+    supBrs brs = true → (hasElse = true → supSs els = true) →
+    CodeAt S.labels S.m.prog wp (compileBranches S.m.p.structs wp c endL brs).code →
+    DefsOk S.labels (compileBranches S.m.p.structs wp c endL brs).defs →
+    lookupLabel S.labels endL = some endAddr →
+    (hasElse = true →
+      CodeAt S.labels S.m.prog (wp + (compileBranches S.m.p.structs wp c endL brs).code.length)
+        (.Block :: (compileStmts S.m.p.structs (wp + (compileBranches S.m.p.structs wp c endL brs).code.length + 1)
+            (compileBranches S.m.p.structs wp c endL brs).c els).code ++ [.End]) ∧
+      DefsOk S.labels (compileStmts S.m.p.structs (wp + (compileBranches S.m.p.structs wp c endL brs).code.length + 1)
+            (compileBranches S.m.p.structs wp c endL brs).c els).defs ∧
+      endAddr = wp + (compileBranches S.m.p.structs wp c endL brs).code.length +
+        (compileStmts S.m.p.structs (wp + (compileBranches S.m.p.structs wp c endL brs).code.length + 1)
+            (compileBranches S.m.p.structs wp c endL brs).c els).code.length + 2) →
+    (hasElse = false → endAddr = wp + (compileBranches S.m.p.structs wp c endL brs).code.length) →
+    Outcome S.m (evalBranches S.m.p n env log brs hasElse els) base fr K
+      (fun env' l => stAt junk base env' fr K endAddr l)
+      (stAt junk base env fr K wp log)
+
+/-- what a function body does, seen from the state right after the call (or at the harness's
+entry): arguments on the stack, a fresh frame -/
+def BodyOutcome (m : Machine) (r : Res Val) (σ : List Val) (frs : List Env) (Kc : List Nat) (s : VM) : Prop :=
+  match r with
+  | .val v l => ∃ envJ pcR, Steps m s ⟨v :: σ, envJ :: frs, Kc, pcR, l⟩ ∧ m.prog[pcR]? = some .Return
+  | .exit r l => ∃ t, ExitsWith m s r t ∧ t.log = l
+  | .ffiErr l => ErrorsWith m s .ffi l
+  | .ret _ _ => True
+  | .stuck => True
+  | .oof => True
+
+def BodySim (n : Nat) : Prop :=
+  ∀ (f : Nat) (vs : List Val) (log : Log) (σ : List Val) (frs : List Env) (Kc : List Nat) (entry : Nat),
+    lookupLabel S.labels (.fn f) = some entry →
+    BodyOutcome S.m (evalCall S.m.p n f vs log) σ frs Kc ⟨vs.reverse ++ σ, [[]] :: frs, Kc, entry, log⟩
+
+/-- global hypotheses on the compiled program -/
+structure ProgOk : Prop where
+  funs : FunsOk S
+  sup : ∀ f fd, S.m.p.funDef f = some fd → supSs fd.body = true
+  ffi : FfiOk S.m
+
+structure AllSim (n : Nat) : Prop where
+  e : ExprSim S n
+  a : ArgsSim S n
+  ss : StmtsSim S n
+  s : StmtSim S n
+  sc : ScopedSim S n
+  br : BranchesSim S n
+  body : BodySim S n
+
+theorem sim_zero : AllSim S 0 := by
+  refine ⟨?_, ?_, ?_, ?_, ?_, ?_, ?_⟩
   · intro e env log wp c junk base fr K _ _ _; simp [evalExpr, Outcome]
   · intro es env log wp c junk base fr K _ _ _; simp [evalArgs, Outcome]
-
+  · intro ss env log wp c junk base fr K _ _ _; simp [evalStmts, Outcome]
+  · intro s env log wp c junk base fr K _ _ _; simp [evalStmt, Outcome]
+  · intro ss env log wp c junk base fr K _ _ _; simp [evalScoped, Outcome]
+  · intro brs hasElse els env log wp c endL endAddr junk base fr K _ _ _ _ _ _ _; simp [evalBranches, Outcome]
+  · intro f vs log σ frs Kc entry _; simp [evalCall, BodyOutcome]
 
 macro "normpc" : tactic => `(tactic| simp only [List.length_append, List.length_cons, List.length_singleton, List.length_nil, ← Nat.add_assoc, Nat.add_zero, Nat.zero_add, Nat.reduceAdd])
 macro "normpc" "at" h:ident : tactic => `(tactic| simp only [List.length_append, List.length_cons, List.length_singleton, List.length_nil, ← Nat.add_assoc, Nat.add_zero, Nat.zero_add, Nat.reduceAdd] at $h:ident)
